@@ -132,7 +132,20 @@ fn gen_items(rng: &mut Rng, depth: u32) -> Vec<Item> {
 			0 if depth < 3 => { let k = *rng.pick(&[1u8, 4, 0]); let sub = gen_items(rng, depth + 1); v.push(Item::Jump(k, sub, true)); },
 			1 if depth < 3 => {
 				let na = rng.range(2, 3) as usize;
-				let alts = (0..na).map(|_| { let len = rng.range(1, 3) as usize; let mut a = vec![Item::Byte(rng.byte())]; a.extend(gen_flat(rng, len, false)); a }).collect();
+				// alternatives: a literal byte first (so that the layout decides which one starts), then flat items - range skips
+				// included in half of them (in the last alternative followed by a suffix this is the known class F34) - or,
+				// one time in four, a nested sequence with braces and alternatives of its own
+				let alts = (0..na).map(|_| {
+					if depth < 2 && rng.chance(1, 4) { gen_items(rng, depth + 1) }
+					else { let len = rng.range(1, 3) as usize; let allow = rng.chance(1, 2); let mut a = vec![Item::Byte(rng.byte())]; a.extend(gen_flat(rng, len, allow)); a }
+				}).collect();
+				// one time in three the alternatives share their first byte and differ in the second: an alternative then fails
+				// after the cursor has moved (and after a capture, when there is one), and the next one must start over
+				let mut alts: Vec<Vec<Item>> = alts;
+				if rng.chance(1, 3) {
+					let b0 = rng.byte();
+					for a in alts.iter_mut() { a[0] = Item::Byte(b0); if rng.chance(1, 2) { a.insert(1, Item::Save); } a.insert(1, Item::Byte(rng.byte())); }
+				}
 				v.push(Item::Alt(alts));
 			},
 			_ => { let len = rng.range(1, 3) as usize; v.extend(gen_flat(rng, len, true)); },
@@ -308,9 +321,12 @@ fn gen(rng: &mut Rng, _i: u64) -> String {
 		_ => {
 			let pe64 = rng.chance(1, 2);
 			let file = rng.chance(1, 2);
-			let items = gen_items(rng, 0);
+			let mut items = gen_items(rng, 0);
+			// the semantic oracle (extracted den_top) needs a pattern the parser does not trim: end on a literal byte most of the time
+			if rng.chance(2, 3) { items.push(Item::Byte(rng.byte())); }
 			let mut text = String::new();
-			show(&items, &mut text, rng);
+			// half of the cases in the canonical spelling (the one theorem 2 speaks about), half with random spacing and case
+			if rng.chance(1, 2) { text = show_canon(&items); } else { show(&items, &mut text, rng); }
 			let image_base: u64 = if pe64 { 0x1_4000_0000 } else { 0x40_0000 };
 			let lay_off = 0x40 + rng.below(0x20) as usize;   // offset of the layout inside the section
 			let sec_va = 0x1000u32; let sec_prd = if file { 0x400u32 } else { 0x1000 };
